@@ -5,6 +5,8 @@ import CuqiVerif.Model.C09
 -/
 namespace CuqiVerif.C09
 
+set_option linter.unusedSectionVars false
+
 variable {N V : Type}
 
 /-! ## experimental -/
@@ -183,13 +185,13 @@ theorem visits_sweepEvs (ds : Nat → Draw V) (l : List N) (g : HG N V) : visits
   | cons a l ih => simp [sweepEvs, visits_append, visits_blockEvs, ih]
 
 theorem stepCount_sweepEvs (ds : Nat → Draw V) (l : List N) (g : HG N V) (m : N) :
-    stepCount m (sweepEvs ds l g) = (l.filter (· = m)).length * g.nsteps m := by
+    stepCount m (sweepEvs ds l g) = l.count m * g.nsteps m := by
   induction l generalizing g with
   | nil => simp [sweepEvs, stepCount]
   | cons a l ih =>
-    simp only [sweepEvs, stepCount_append, stepCount_blockEvs, ih, blockUpdate_nsteps]
+    simp only [sweepEvs, stepCount_append, stepCount_blockEvs, ih, blockUpdate_nsteps, List.count_cons]
     by_cases h : a = m
-    · subst h; simp [Nat.succ_mul, Nat.add_comm]
+    · subst h; simp [Nat.add_mul, Nat.add_comm]
     · simp [h]
 
 /-- the point of a sampler is not changed by the prologue (state restored / `initial_point` overwritten) -/
@@ -241,5 +243,158 @@ theorem sampleN_succ' (ds : Nat → Draw V) (k : Nat) (g : HG N V) :
     sampleN ds (k + 1) g = store (sweep ds (sampleN ds k g)) := by
   have := sampleN_add ds k 1 g
   simpa [sampleN] using this
+
+/-! ## legacy -/
+
+abbrev LSt (N V : Type) := (N → V) × Nat × List (LEv N V)
+
+/-- the legacy sweep restricted to a list of blocks -/
+def lsweepL (ds : Nat → V) (names l : List N) (st : LSt N V) : LSt N V := l.foldl (lblock ds names) st
+
+theorem lsweep_eq_lsweepL (ds : Nat → V) (names : List N) (st : LSt N V) :
+    lsweep ds names st = lsweepL ds names names st := rfl
+
+theorem lsweepL_append (ds : Nat → V) (names l₁ l₂ : List N) (st : LSt N V) :
+    lsweepL ds names (l₁ ++ l₂) st = lsweepL ds names l₂ (lsweepL ds names l₁ st) := by
+  simp [lsweepL, List.foldl_append]
+
+theorem lsweepL_cons (ds : Nat → V) (names : List N) (a : N) (l : List N) (st : LSt N V) :
+    lsweepL ds names (a :: l) st = lsweepL ds names l (lblock ds names st a) := rfl
+
+theorem lsweepL_cur_of_not_mem (ds : Nat → V) (names l : List N) (st : LSt N V) (m : N) (h : m ∉ l) :
+    (lsweepL ds names l st).1 m = st.1 m := by
+  induction l generalizing st with
+  | nil => rfl
+  | cons a l ih =>
+    have h1 : m ≠ a := fun e => h (by simp [e])
+    have h2 : m ∉ l := fun e => h (by simp [e])
+    rw [lsweepL_cons, ih _ h2]
+    simp [lblock, upd, h1]
+
+/-- names of the blocks advanced, in log order -/
+def lvisits : List (LEv N V) → List N
+  | [] => []
+  | LEv.step n _ _ _ :: l => n :: lvisits l
+  | _ :: l => lvisits l
+
+theorem lvisits_append (l₁ l₂ : List (LEv N V)) : lvisits (l₁ ++ l₂) = lvisits l₁ ++ lvisits l₂ := by
+  induction l₁ with
+  | nil => rfl
+  | cons e l ih => cases e <;> simp [lvisits, ih]
+
+theorem lsweepL_visits (ds : Nat → V) (names l : List N) (st : LSt N V) :
+    lvisits (lsweepL ds names l st).2.2 = lvisits st.2.2 ++ l := by
+  induction l generalizing st with
+  | nil => simp [lsweepL]
+  | cons a l ih =>
+    rw [lsweepL_cons, ih]
+    simp [lblock, lvisits_append, lvisits]
+
+theorem lsweepL_pos (ds : Nat → V) (names l : List N) (st : LSt N V) :
+    (lsweepL ds names l st).2.1 = st.2.1 + l.length := by
+  induction l generalizing st with
+  | nil => simp [lsweepL]
+  | cons a l ih =>
+    rw [lsweepL_cons, ih]
+    simp only [lblock, List.length_cons]; omega
+
+/-- `k` legacy sweeps with a store after each: the post-sweep tuples and the final state -/
+def lrun (ds : Nat → V) (names : List N) (w : Bool) : Nat → Nat → LSt N V → List (N → V) × LSt N V
+  | 0, _, st => ([], st)
+  | k + 1, i, st =>
+    let st' := lsweep ds names st
+    let r := lrun ds names w k (i + 1) (st'.1, st'.2.1, st'.2.2 ++ [LEv.store w i (tuple names st'.1)])
+    (st'.1 :: r.1, r.2)
+
+theorem lloop_eq (ds : Nat → V) (names : List N) (w : Bool) (k : Nat) (A : List (N → V)) (z : N → V)
+    (st : LSt N V) :
+    (lloop ds names w k A.length (A ++ List.replicate k z) st).1 = A ++ (lrun ds names w k A.length st).1
+    ∧ (lloop ds names w k A.length (A ++ List.replicate k z) st).2 = (lrun ds names w k A.length st).2 := by
+  induction k generalizing A st with
+  | zero => simp [lloop, lrun]
+  | succ k ih =>
+    have hset : setCol (A ++ List.replicate (k + 1) z) A.length (lsweep ds names st).1
+        = (A ++ [(lsweep ds names st).1]) ++ List.replicate k z := by
+      simp [setCol, List.replicate_succ]
+    have hlen : (A ++ [(lsweep ds names st).1]).length = A.length + 1 := by simp
+    simp only [lloop, lrun, hset]
+    rw [← hlen]
+    have := ih (A ++ [(lsweep ds names st).1])
+      ((lsweep ds names st).1, (lsweep ds names st).2.1,
+        (lsweep ds names st).2.2 ++ [LEv.store w A.length (tuple names (lsweep ds names st).1)])
+    constructor
+    · rw [this.1]; simp
+    · rw [this.2]
+
+theorem lloop_eq_nil (ds : Nat → V) (names : List N) (w : Bool) (k : Nat) (z : N → V) (st : LSt N V) :
+    lloop ds names w k 0 (List.replicate k z) st = ((lrun ds names w k 0 st).1, (lrun ds names w k 0 st).2) := by
+  have := lloop_eq ds names w k [] z st
+  simp only [List.length_nil, List.nil_append] at this
+  exact Prod.ext this.1 this.2
+
+theorem lrun_length (ds : Nat → V) (names : List N) (w : Bool) (k i : Nat) (st : LSt N V) :
+    (lrun ds names w k i st).1.length = k := by
+  induction k generalizing i st with
+  | zero => rfl
+  | succ k ih => simp [lrun, ih]
+
+theorem lrun_get (ds : Nat → V) (names : List N) (w : Bool) (k i j : Nat) (st : LSt N V) (hj : j < k) :
+    (lrun ds names w k i st).1[j]? = some (lrun ds names w (j + 1) i st).2.1 := by
+  induction k generalizing i j st with
+  | zero => omega
+  | succ k ih =>
+    cases j with
+    | zero => simp [lrun]
+    | succ j =>
+      have := ih (i + 1) j ((lsweep ds names st).1, (lsweep ds names st).2.1,
+        (lsweep ds names st).2.2 ++ [LEv.store w i (tuple names (lsweep ds names st).1)]) (by omega)
+      simpa [lrun] using this
+
+theorem lrun_add (ds : Nat → V) (names : List N) (w : Bool) (a b i : Nat) (st : LSt N V) :
+    lrun ds names w (a + b) i st
+      = ((lrun ds names w a i st).1 ++ (lrun ds names w b (i + a) (lrun ds names w a i st).2).1,
+         (lrun ds names w b (i + a) (lrun ds names w a i st).2).2) := by
+  induction a generalizing i st with
+  | zero => simp [lrun]
+  | succ a ih =>
+    rw [Nat.succ_add]
+    simp only [lrun, ih]
+    simp [Nat.add_assoc, Nat.add_comm 1 a]
+
+theorem lrun_last (ds : Nat → V) (names : List N) (w : Bool) (k i : Nat) (st : LSt N V) (hk : 1 ≤ k) :
+    (lrun ds names w k i st).1.getLast? = some (lrun ds names w k i st).2.1 := by
+  have h := lrun_get ds names w k i (k - 1) st (by omega)
+  have hl := lrun_length ds names w k i st
+  rw [List.getLast?_eq_getElem?, hl, h]
+  have : k - 1 + 1 = k := by omega
+  rw [this]
+
+/-- the default initial points of a fresh legacy sampler -/
+def linit0 (g : LG N V) : N → V := fun n => (g.initPoint n).getD (g.ones n)
+
+theorem lsample_first (ds : Nat → V) (g : LG N V) (a : Nat) (hw : g.warm = none) (hs : g.samples = none) :
+    lsample ds g a 0 = .ok { g with samples := some (lrun ds g.names false a 0 (linit0 g, g.pos, g.log)).1
+                                    warm := some []
+                                    pos := (lrun ds g.names false a 0 (linit0 g, g.pos, g.log)).2.2.1
+                                    log := (lrun ds g.names false a 0 (linit0 g, g.pos, g.log)).2.2.2 } := by
+  unfold linit0
+  simp [lsample, linit, hw, hs, lloop, lloop_eq_nil]
+
+theorem lsample_next (ds : Nat → V) (g : LG N V) (b : Nat) (C : List (N → V)) (c : N → V)
+    (hC : C.getLast? = some c) (hs : g.samples = some C) (hw : g.warm = some []) :
+    lsample ds g b 0 = .ok { g with samples := some (C ++ (lrun ds g.names false b C.length (c, g.pos, g.log)).1)
+                                    warm := some []
+                                    pos := (lrun ds g.names false b C.length (c, g.pos, g.log)).2.2.1
+                                    log := (lrun ds g.names false b C.length (c, g.pos, g.log)).2.2.2 } := by
+  have h := lloop_eq ds g.names false b C g.zeros (c, g.pos, g.log)
+  simp [lsample, linit, hw, hs, hC, lloop, h.1, h.2]
+
+theorem lsample_continue (ds : Nat → V) (g : LG N V) (a b : Nat) (ha : 1 ≤ a)
+    (hw : g.warm = none) (hs : g.samples = none) :
+    (lsample ds g a 0).bind (fun g' => lsample ds g' b 0) = lsample ds g (a + b) 0 := by
+  rw [lsample_first ds g a hw hs, lsample_first ds g (a + b) hw hs]
+  simp only [Except.bind]
+  rw [lsample_next ds _ b _ _ (lrun_last ds g.names false a 0 _ ha) rfl rfl]
+  simp [lrun_add, lrun_length]
 
 end CuqiVerif.C09
